@@ -153,9 +153,11 @@ PROPS = {
         level='exploration', flavours=fl(['debug'], ['debug']), custom=True,
         rule="probe programs derived from every valid zero-copy definition of universe A: one field replaced by Vec<u8>, String, "
              "Box<[u8]>, a deep struct, a repr(C) struct left deep-copy, a hand-written CopyType=Zero type with IS_ZERO_COPY=false "
-             "(directly, in an array, in a Vec, in a tuple), repr(C) dropped, #[deep_copy] added; rustc verdict per program; programs "
+             "(directly, in an array, in a Vec, in a tuple, behind &[T] and SerIter), a hand-written wrapper Hand<F> declared zero-copy whose "
+             "verified flag is the conjunction of its field flags, over every Copy built-in deep constructor (Option, Bound, ControlFlow, "
+             "&[T], arrays of them; bare, in a Vec, in an array), repr(C) dropped, #[deep_copy] added; rustc verdict per program; programs "
              "that compile are run with a counting sink: must panic with no value byte written; distinct = probe program",
-        floors=fl({'probe_programs': 60, 'layer2_probes_run': 4}, {'probe_programs': 60}),
+        floors=fl({'probe_programs': 200, 'layer2_probes_run': 30}, {'probe_programs': 200}),
         assumptions=COMMON_ASSUME),
     'C18': dict(
         miri={'quick': (64, 16, 2), 'thorough': (32, 16, 2)},
